@@ -90,10 +90,13 @@ def block_st(isa, cfg, data_ok=True, only_data=False, cfi=False):
     return st.one_of(code, code, code, data)
 
 
-def patch_st(isa, cfg, data_ok=True, cfi=False):
+def patch_st(isa, cfg, data_ok=True, cfi=False, pdata=False):
     ords = _ord_names(isa)
     terms = [n for n in _term_names(isa) if I.table(isa)[n].patch] if cfg else []
     toks = [insn_st(isa, ords)] * 4
+    if pdata:
+        toks += [st.fixed_dictionaries({"pd": st.just("byte"), "v": st.lists(st.integers(0, 255), min_size=1, max_size=3)}),
+                 st.fixed_dictionaries({"pd": st.sampled_from(["string", "ascii"]), "s": st.sampled_from(["a", "hi"])})]
     if cfi:
         toks += [st.fixed_dictionaries({"cfi": st.sampled_from(["adj+", "adj+", "adj-", "rem", "res"])})] * 2
     if terms:
@@ -102,8 +105,8 @@ def patch_st(isa, cfg, data_ok=True, cfi=False):
     return st.fixed_dictionaries({"toks": st.lists(st.one_of(*toks), min_size=1, max_size=5)})
 
 
-def edit_st(isa, cfg, cfi=False):
-    p = patch_st(isa, cfg, cfi=cfi)
+def edit_st(isa, cfg, cfi=False, pdata=False):
+    p = patch_st(isa, cfg, cfi=cfi, pdata=pdata)
     cb = st.sampled_from([True, True, True, False])
     ins = st.fixed_dictionaries({"op": st.just("insert"), "cb": cb, "b": _small, "i": st.sampled_from([0, 0, 1, 2, 3, 99]), "patch": p})
     rep = st.fixed_dictionaries({"op": st.just("replace"), "cb": cb, "b": _small, "i": st.integers(0, 4),
@@ -123,13 +126,13 @@ def scope_edit_st(isa):
                                   "pos": st.sampled_from(["entry", "exit"]), "b": _small, "patch": p})
 
 
-def case_st(tier, pairs=None, cfg=True, max_edits=None, min_edits=1, scopes=False, cfi=False):
+def case_st(tier, pairs=None, cfg=True, max_edits=None, min_edits=1, scopes=False, cfi=False, pdata=False):
     pairs = pairs or I.PAIRS
     nb = 6 if tier == "quick" else 10
     ne = max_edits or (5 if tier == "quick" else 9)
 
     def build(pair):
-        key = (pair, tier, cfg, ne, min_edits, scopes, cfi)
+        key = (pair, tier, cfg, ne, min_edits, scopes, cfi, pdata)
         if key not in _ST_CACHE:
             _ST_CACHE[key] = _build(pair)
         return _ST_CACHE[key]
@@ -150,8 +153,8 @@ def case_st(tier, pairs=None, cfg=True, max_edits=None, min_edits=1, scopes=Fals
             "funcs": st.sampled_from([True, True, True, False]),
             "entry": st.one_of(st.none(), _small),
             "cfi": st.just(bool(cfi)),
-            "edits": st.lists((st.one_of(edit_st(isa, use_cfg), edit_st(isa, use_cfg), scope_edit_st(isa))
-                               if scopes else edit_st(isa, use_cfg, cfi=cfi)), min_size=min_edits, max_size=ne),
+            "edits": st.lists((st.one_of(edit_st(isa, use_cfg, pdata=pdata), edit_st(isa, use_cfg, pdata=pdata), scope_edit_st(isa))
+                               if scopes else edit_st(isa, use_cfg, cfi=cfi, pdata=pdata)), min_size=min_edits, max_size=ne),
         })
 
     return st.sampled_from(pairs).flatmap(build)
@@ -609,7 +612,7 @@ class Case:
         if not host.code:
             # code patches in data blocks: ordinary instructions only (control
             # flow into or out of data is outside the modelled domain)
-            toks = [t for t in toks if "lab" not in t and "cfi" not in t and self.tab[t["t"]].kind == "ord"]
+            toks = [t for t in toks if "lab" not in t and "cfi" not in t and ("pd" in t or self.tab[t["t"]].kind == "ord")]
             own = []
         # balance the patch's own CFI
         if any("cfi" in t for t in toks):
@@ -632,7 +635,7 @@ class Case:
                 bal.append(t)
             # properly nested: close what is still open, innermost first
             toks = bal + [{"cfi": "adj-" if c == "adj+" else "res"} for c in reversed(stack)]
-        if not any("lab" not in t and "cfi" not in t for t in toks):
+        if not any("lab" not in t and "cfi" not in t and "pd" not in t for t in toks) and not any("pd" in t for t in toks):
             toks = list(toks) + [{"t": "nop", "sym": 0, "imm": 0}]
         for k, t in enumerate(toks):
             if "lab" in t:
@@ -642,6 +645,18 @@ class Case:
                 defined.add(nm)
                 items.append(Label(nm, "patch", ("patch", ed.reg, k), temp=bool(t.get("temp"))))
                 lines.append(f"{nm}:")
+                continue
+            if "pd" in t:
+                if t["pd"] == "byte":
+                    bs = bytes(b & 0xFF for b in t["v"]) or b"\0"
+                    line = ".byte " + ", ".join(str(b) for b in bs)
+                else:
+                    bs = t["s"].encode() + (b"\0" if t["pd"] == "string" else b"")
+                    line = f'.{t["pd"]} "{t["s"]}"'
+                u = Unit(bs, "data", origin=("patch", ed.reg, k))
+                u.text = line
+                items.append(u)
+                lines.append(line)
                 continue
             if "cfi" in t:
                 nm, args = PATCH_CFI[t["cfi"]]
